@@ -696,7 +696,7 @@ class Deep(Suite):
 
 
 class Wide(Suite):
-    """Counts beyond the moderate range: 40-1200 sibling routes under one parent (literals, literals next to one field
+    """Counts beyond the moderate range: 40-800 sibling routes under one parent (literals, literals next to one field
     sibling, converter fields told apart by their literal prefixes), looked up for the first, middle, last and a missing
     sibling; and 300 routes added one by one with a lookup after every 50th."""
 
@@ -706,7 +706,7 @@ class Wide(Suite):
     cap = 200
 
     def cases(self, tier):
-        for n in ((40, 257, 600) if tier == 'quick' else (40, 63, 64, 65, 255, 256, 257, 600, 1200)):
+        for n in ((40, 257, 600) if tier == 'quick' else (40, 63, 64, 65, 255, 256, 257, 600, 800)):
             for shape in ('literals', 'literals+field', 'prefixed_fields', 'incremental'):
                 yield {'n': n, 'shape': shape}
 
